@@ -40,6 +40,7 @@ struct upump_sim_mgr {
     uint64_t dispatched;
     uint32_t spurious, late;
     bool spurious_shared_only;
+    bool fifo;
     struct upump_common_mgr common_mgr;
     uint8_t upool_extra[];
 };
@@ -321,7 +322,7 @@ static int upump_sim_mgr_run(struct upump_mgr *mgr, struct umutex *mutex)
         }
         sim_point(SIM_PT_LOOP, sim_mgr);
         /* the order in which ready watchers run is not specified */
-        unsigned k = nready > 1 ? sim_choose(SIM_CH_LOOP, nready, nready - 1, nready) : 0;
+        unsigned k = nready > 1 && !sim_mgr->fifo ? sim_choose(SIM_CH_LOOP, nready, nready - 1, nready) : 0;
         struct upump_sim *p = ready[k];
         if (!p->live || !p->active)
             continue;           /* changed while we yielded */
@@ -404,6 +405,11 @@ void upump_sim_mgr_set_faults(struct upump_mgr *mgr, uint32_t spurious_per1024,
 {
     upump_sim_mgr_from_upump_mgr(mgr)->spurious = spurious_per1024;
     upump_sim_mgr_from_upump_mgr(mgr)->late = late_per1024;
+}
+
+void upump_sim_mgr_set_fifo(struct upump_mgr *mgr, bool on)
+{
+    upump_sim_mgr_from_upump_mgr(mgr)->fifo = on;
 }
 
 void upump_sim_mgr_set_spurious_shared_only(struct upump_mgr *mgr, bool on)
